@@ -459,7 +459,7 @@ def streams(tier, rng):
             cases.append((1304, a + [[]]))
             if n % 16 in (0, 15) or n > 250:
                 cases.append((1301, a)); cases.append((1300, a))
-    yield "exh_sizes_eof_fault_location", "exact", cases
+    yield "sizes_eof_fault_location", "exact", cases
     # 5. random PDUs: pack, round trip, round trip with look-alike suffix, decode of layout ++ suffix
     cases = []
     for _ in range(8000 if big else 800):
